@@ -128,7 +128,47 @@ VIsect(ev) ==
   ELSE IF ev[2] = "tx" /\ o[3] THEN "intersect:cds-is-dropped-as-documented"
   ELSE "ok"
 
-Verdict(ev) == CASE ev[1] = "isect" -> VIsect(ev) [] ev[1] = "txgap" -> VTxGap(ev) [] ev[1] = "txpos" -> VTxPos(ev) [] ev[1] = "m1" -> VM1(ev) [] ev[1] = "tx" -> VTx(ev) [] ev[1] = "txiv" -> VTxIv(ev) [] OTHER -> "unknown-op"
+(* ["crmap", exons, cds|EMPTY, ws, we, chunkOnMinusStrand, q2t, t2q, q2c, c2q, scalars] : the CHUNK-RELATIVE coordinate
+   system of a transcript built on the sequence chunk [ws, we).  By C07 its chunk-relative location is the part of the
+   transcript inside the chunk, expressed in chunk coordinates (c(p) = p - ws, or we - 1 - p on a minus-strand chunk,
+   which also flips the strand); the chunk-relative conversions are the C01 maps of THAT location:
+     q2t[q] chunk_relative_pos_to_transcript(q), q = -1 .. we - ws     t2q[i] transcript_pos_to_chunk_relative(i), i = -1 ..
+     q2c / c2q the same for the CDS;   scalars = <<chunk_relative_start, chunk_relative_end, chunk_relative_size,
+     chunk_relative_strand, cds_start, cds_end, chunk_relative_cds_start, chunk_relative_cds_end>> (outcomes) *)
+ChunkBases(l, ws, we, minus) ==
+  LET ins == SelectSeq(Bases(l), LAMBDA p : ws <= p /\ p < we) IN
+  [k \in DOMAIN ins |-> IF minus THEN we - 1 - ins[k] ELSE ins[k] - ws]
+FlipIf(b, st) == IF b THEN (IF st = "+" THEN "-" ELSE IF st = "-" THEN "+" ELSE st) ELSE st
+SeqMin(sq) == Min({sq[k] : k \in DOMAIN sq})
+SeqMax(sq) == Max({sq[k] : k \in DOMAIN sq})
+PosToRelOK(os, lo, cb) == \A k \in DOMAIN os : LET q == lo + k - 1 o == os[k] IN
+     IF \E j \in DOMAIN cb : cb[j] = q THEN IsVal(o) /\ cb[o[2] + 1] = q /\ 0 <= o[2] /\ o[2] < Len(cb) ELSE Rejected(o)
+RelToPosOK(os, lo, cb) == \A k \in DOMAIN os : LET i == lo + k - 1 o == os[k] IN
+     IF 0 <= i /\ i < Len(cb) THEN IsVal(o) /\ o[2] = cb[i + 1] ELSE Rejected(o)
+VCrMap(ev) ==
+  LET ex == ev[2] cds == ev[3] ws == ev[4] we == ev[5] minus == ev[6] coding == ~IsEmptyLoc(cds)
+      cb == ChunkBases(ex, ws, we, minus) sc == ev[11]
+      ccb == IF coding THEN ChunkBases(cds, ws, we, minus) ELSE <<>> IN
+  FirstBad(<<
+    Ok(PosToRelOK(ev[7], -1, cb), "chunk-to-transcript"),
+    Ok(RelToPosOK(ev[8], -1, cb), "transcript-to-chunk"),
+    IF ~coding THEN Ok(\A k \in DOMAIN ev[9] : Rejected(ev[9][k]), "noncoding-rejects-cds-calls")
+    ELSE Ok(PosToRelOK(ev[9], -1, ccb), "chunk-to-cds"),
+    IF ~coding THEN Ok(\A k \in DOMAIN ev[10] : Rejected(ev[10][k]), "noncoding-rejects-cds-calls")
+    ELSE Ok(RelToPosOK(ev[10], -1, ccb), "cds-to-chunk"),
+    \* nothing of the transcript on the chunk: start / end of an empty location may be refused or be anything empty
+    IF cb = <<>> THEN Ok(Rejected(sc[3]) \/ (IsVal(sc[3]) /\ sc[3][2] = 0), "chunk-relative-size")
+    ELSE FirstBad(<<
+      Ok(IsVal(sc[1]) /\ sc[1][2] = SeqMin(cb) /\ IsVal(sc[2]) /\ sc[2][2] = SeqMax(cb) + 1, "chunk-relative-start-end"),
+      Ok(IsVal(sc[3]) /\ sc[3][2] = Len(cb), "chunk-relative-size"),
+      Ok(IsVal(sc[4]) /\ sc[4][2] = FlipIf(minus, St(ex)), "chunk-relative-strand") >>),
+    IF ~coding THEN Ok(Rejected(sc[5]) /\ Rejected(sc[6]) /\ Rejected(sc[7]) /\ Rejected(sc[8]), "noncoding-rejects-cds-calls")
+    ELSE FirstBad(<<
+      Ok(IsVal(sc[5]) /\ sc[5][2] = MinStart(cds) /\ IsVal(sc[6]) /\ sc[6][2] = MaxEnd(cds), "cds-start-end"),
+      IF ccb = <<>> THEN "ok"
+      ELSE Ok(IsVal(sc[7]) /\ sc[7][2] = SeqMin(ccb) /\ IsVal(sc[8]) /\ sc[8][2] = SeqMax(ccb) + 1, "chunk-relative-cds-start-end") >>) >>)
+
+Verdict(ev) == CASE ev[1] = "crmap" -> VCrMap(ev) [] ev[1] = "isect" -> VIsect(ev) [] ev[1] = "txgap" -> VTxGap(ev) [] ev[1] = "txpos" -> VTxPos(ev) [] ev[1] = "m1" -> VM1(ev) [] ev[1] = "tx" -> VTx(ev) [] ev[1] = "txiv" -> VTxIv(ev) [] OTHER -> "unknown-op"
 Bad == {i \in DOMAIN Trace : Verdict(Trace[i]) # "ok"}
 ASSUME \A i \in Bad : PrintT(<<"BAD", i, Verdict(Trace[i])>>)
 ASSUME PrintT(<<"DONE", Len(Trace), Cardinality(Bad)>>)
